@@ -174,6 +174,44 @@ def run_long(task):
             out["vio"].setdefault(tag + "cov-chunking", (
                 {"n": n, "cuts": cut}, "%d pairs fed in chunks cut at %r: "
                 "covar %r, whole sample %r" % (n, cut, rc.covar, cov)))
+    # the covariance matrix of 2-4 series fed in chunks (the two-chunk splits
+    # include chunks exactly as long as there are series)
+    from xyzpy.utils import RunningCovarianceMatrix
+
+    m_n = min(n, 64)
+    for nser in (2, 3, 4):
+        cols = [[seq[(i * (k + 1) + k) % n] * (1 + k % 2) + k * al[1]
+                 for i in range(m_n)] for k in range(nser)]
+        fcols = [[Fraction(v) for v in c_] for c_ in cols]
+        means = [sum(c_) / m_n for c_ in fcols]
+        exact = [[float(sum((a - means[i]) * (b - means[j])
+                            for a, b in zip(fcols[i], fcols[j])) / m_n)
+                  for j in range(nser)] for i in range(nser)]
+        mscale = max(abs(v) for c_ in cols for v in c_)
+        tol = 64 * m_n * EPS * mscale * mscale
+        msplits = [[s_] for s_ in range(0, m_n + 1)] + [
+            list(range(nser, m_n, nser)), [1, 1 + nser], [nser, 2 * nser]]
+        for si, cut in enumerate(msplits):
+            bounds = [0] + list(cut) + [m_n]
+            rm = RunningCovarianceMatrix(nser)
+            for ci in range(len(bounds) - 1):
+                a, b = bounds[ci], bounds[ci + 1]
+                if a == b:
+                    continue
+                chunk = [c_[a:b] for c_ in cols]
+                if (si + ci) % 3 == 1:
+                    chunk = [np.array(c_) for c_ in chunk]
+                rm.update_from_it(*chunk)
+                out["transitions"] += 1
+            out["states"] += 1
+            got = rm.covar_matrix
+            if rm.count != m_n or not np.allclose(got, np.array(exact),
+                                                  rtol=0, atol=tol):
+                out["vio"].setdefault(tag + "matrix-chunking", (
+                    {"n": m_n, "series": nser, "cuts": cut},
+                    "%d samples of %d series fed in chunks cut at %r: count "
+                    "%r, covariance matrix %r, whole sample %r" % (
+                        m_n, nser, cut, rm.count, got.tolist(), exact)))
     return fin(out)
 
 
